@@ -24,7 +24,6 @@ pub struct PcaRef {
     /// eigenvalues (non-increasing) of the correlation matrix (empty when a column is constant)
     pub lam_cor: Vec<f64>,
     pub trace_cov: f64,
-    pub max_abs_x: f64,
 }
 
 fn eig_sorted(s: &Mat) -> Vec<f64> {
@@ -75,8 +74,7 @@ pub fn pca_ref(x: &Mat) -> PcaRef {
         }
         eig_sorted(&r)
     };
-    let max_abs_x = orc::max_abs(x);
-    PcaRef { mu, ss, constant_col, lam_cov, lam_cor, trace_cov, max_abs_x }
+    PcaRef { mu, ss, constant_col, lam_cov, lam_cor, trace_cov }
 }
 
 pub struct SvdRef {
@@ -149,27 +147,4 @@ pub fn num_rank(vals: &[f64]) -> usize {
         return 0;
     }
     vals.iter().filter(|v| **v > 1e-10 * top).count()
-}
-
-/// Sample covariance matrix (divisor n−1) of the columns of `t`, centred with their own means, and
-/// those means.
-pub fn cov_of(t: &Mat) -> (Vec<f64>, Mat) {
-    let (n, k) = orc::shape(t);
-    let m = col_means(t);
-    let mut c = orc::zeros(k, k);
-    for r in t {
-        for i in 0..k {
-            for j in 0..=i {
-                c[i][j] += (r[i] - m[i]) * (r[j] - m[j]);
-            }
-        }
-    }
-    let d = (n as f64 - 1.0).max(1.0);
-    for i in 0..k {
-        for j in 0..=i {
-            c[i][j] /= d;
-            c[j][i] = c[i][j];
-        }
-    }
-    (m, c)
 }
